@@ -110,7 +110,15 @@ def main(argv):
         if e.get("status") != "known":
             continue
         w = e["witness"]
-        ok, why, err = concrete_run(H, w["body"], _untuple(w["cfg"]), w["args"])
+        # the harness excludes exactly the recorded class inside its body; the witness itself is
+        # replayed with that exclusion switched off
+        if hasattr(H, "IGNORE_KNOWN"):
+            H.IGNORE_KNOWN = True
+        try:
+            ok, why, err = concrete_run(H, w["body"], _untuple(w["cfg"]), w["args"])
+        finally:
+            if hasattr(H, "IGNORE_KNOWN"):
+                H.IGNORE_KNOWN = False
         if err is None and ok is False:
             line = f"KNOWN-FINDING: property={pid} {e['what']}"
             known_lines.append(line)
@@ -118,7 +126,7 @@ def main(argv):
         else:
             log(f"[{pid}] note: recorded finding '{e['id']}' no longer reproduces (ok={ok}, err={err})")
         for c in conds:
-            if fnmatch.fnmatchcase(c.name, e["cond"]):
+            if e.get("exclude_pre") and fnmatch.fnmatchcase(c.name, e.get("cond", "*")):
                 c.pre = list(c.pre) + [e["exclude_pre"]]
 
     jobs = [(c, "main") for c in conds] + [(c, "twin") for c in conds if c.twin]
